@@ -23,7 +23,7 @@ Ltac difh :=
       let E := fresh "E" in destruct c eqn:E; try rewrite E in *
   end.
 
-Ltac fin := try lia; try congruence; try (f_equal; lia).
+Ltac fin := try reflexivity; try lia; try congruence; try (f_equal; lia).
 
 (* ------------------------------------------------------------------ lists *)
 
